@@ -48,6 +48,7 @@ EXPECT = [
     ("with an index ignored empty path segments", ["C07", "C09"]),
     ("mistook a parent that is the empty key", ["C11"]),
     ("panicked at a wildcard over a map with an empty key", ["C20"]),
+    ("accepted a mismatched end tag under CoerceKeysToSnakeCase", ["C15"]),
 ]
 
 
